@@ -28,7 +28,9 @@ _COMMON_NOTE = ("Trusted: Lean kernel + the three standard axioms; the hand tran
                 "key comparisons, hashing and == walks of the lookup code are not events: that they touch no destroyed object is checked on the real code by the "
                 "harness ledger (counter u) only - the model contributes linked_objects_live (everything reachable through a container is live). "
                 "MultiMap::insert(hint) is driven only with keys not yet present (inside a run of equal keys the position depends on the tree shape). Not driven: List::sort (swaps "
-                "payloads between nodes), find() as an operation, Array(capacity)-constructor variants beyond newcap. Allocation never fails; "
+                "payloads between nodes: no stored element is constructed or destroyed, values change address - outside C05's insert/remove wording), find() / contains() / count() / operator== as operations "
+                "(find runs inside insert / remove(key) and in the C05 observation of every element after every op), PoolList::append with 3..7 arguments (same template body as 0..2). "
+                "The client sources Server.cpp / Future.cpp / Callback.cpp are not compiled into this harness (scripted client patterns + pointer_valid_until_removed stand for them; the real code runs under C13/C14, C10, C12). Allocation never fails; "
                 "element constructors do not throw. The model mirrors the REPAIRED code (fixes/life/0001..0004: D2 self-assignment, D3 Array alias, "
                 "D4 List self-insert, D5 MultiMap copy); on a tree without these patches the check reports them as violations.")
 
@@ -49,7 +51,11 @@ MANIFEST = {
                 "reference operand = same step with a temporary copy, up to the log) with Map/HashMap/List operation-level corollaries, "
                 "set_append_self_noop, set_remove_self_empties, and the literal refinement forms list_insert_self_refines, array_append_self_refines, "
                 "set_append_self_refines, set_remove_self_refines, map_insert_self_refines (op(c, c) = copy t from c; op(c, t)). No OPEN statement, no _partial theorem. "
-                "Tie to the current headers on every run: exhaustive small scope per container, Array alias ops at every size/capacity boundary, random histories, "
+                "The model has 52 operations incl. PoolMap::insert(position, key) and the re-entrant pool removal (element destructor removes another element of the same pool). "
+                "'Exactly once' is a statement about exception-free C++ (no throwing constructor / assignment, allocation never fails). "
+                "Tie to the current headers on every run: exhaustive small scope per container, Array alias ops at every size/capacity boundary, a bucket-chain stream "
+                "(HashMap/HashSet/PoolMap with explicit bucket counts 1..5, keys of one bucket linked by append/prepend/positional insert in every order, then clear/assign/swap/copy/remove, "
+                "then re-use of the same keys), deep Map/MultiMap histories (every removal shape; tools/implcov.py: all 1320 instrumented lines of the eight headers executed), random histories, "
                 "ASan/UBSan, ledger arithmetic (constructed - destroyed = live = sum of sizes + sentinels, zero misuse counters, no block left) and "
                 "as-if-copied contents by the reference.",
         "note": _COMMON_NOTE,
@@ -70,7 +76,14 @@ MANIFEST = {
                 "insert_keeps_all and remove_keeps_others (sharp per-step forms: an insertion removes/relocates nothing, remove(iterator) destroys exactly "
                 "the designated element), swap_hands_over, blocks_stay (no step other than a destructor / Array::reserve frees a block), pool_in_place / pool_ops_in_place (PoolList/PoolMap operations emit no copy construction of an "
                 "element and no assignment), removal_only_destroys (remove/clear emit only destructor calls), assign_only_value, overwrite_same_key "
-                "(the only assignment targets the value object of the item carrying the inserted key; keys are never assigned). The harness checks on the real "
+                "(the only assignment targets the value object of the item carrying the inserted key; keys are never assigned). Client form (Server pools, Future worker contexts, Callback slots): "
+                "pointer_valid_until_removed (for every reachable state, every element of it and EVERY further history: with HistRemoves = some operation of the history, evaluated in the state it "
+                "runs in and following the element through swaps, removes it - either not removed and Kept over the whole history (same slot, item of a container of its kind, the other variable after "
+                "swaps, nothing constructed/destroyed in the slot, key unchanged) and the value object unchanged unless the events contain an assignment to that very object, or removed and all member "
+                "objects destroyed), pointer_valid_step, insertions_and_swaps_never_invalidate, clear_and_destruction_remove_own_elements, insert_links_one_item (an insertion links exactly one new item "
+                "in an unoccupied slot or leaves the item list alone), insert_own_value_is_self_assignment (m.insert(key, *m.find(key)) on Map/HashMap = exactly one self-assignment event of the value "
+                "object, memory / items / blocks unchanged: with a value type whose self-assignment is the identity nothing moves - the nested instantiation Map<K, List<T>> itself is not modelled). "
+                "Re-entrant removal (the destructor of a pool element removes another element of the same pool) is an operation of the model (pRemoveChain / qRemoveChain) and of the harness. The harness checks on the real "
                 "headers after every op, for every element of all seven containers, that it is the same object (serial) at the address recorded in the ledger, "
                 "that it still carries the key / payload it had when first seen (an element assigned into another node counts as moved), that the iterator saved "
                 "when it was first seen and find(key) still designate it, or that it was constructed by this very op; assignments to and copies from "
@@ -856,7 +869,8 @@ def check(ctx):
         ref = make_reference(ctx.prop == "C05")
         args = [ctx.prop]
         diffs = C.differential(ctx, harness, C.driver_path(DRIVER), hs, ref, C.default_eq, nontrivial=nontrivial,
-                               harness_args=args, driver_args=args, timeout=600)
+                               harness_args=args, driver_args=args,
+                               timeout=(150 if ctx.tier == "quick" else 600))   # a chunk takes < 10 s; a hanging implementation is a result
         ctx.log(f"{len(hs)} histories, {ctx.cov['evaluations']} op lines, {len(diffs)} disagreement(s)")
         C.report_diffs(ctx, diffs, harness, C.driver_path(DRIVER), ref, C.default_eq, "life-" + ctx.prop,
                        harness_args=args, driver_args=args)
